@@ -16,7 +16,7 @@ from props import c05_gen
 # axisymmetric solvers (FSolver::StaticAxisymmetric / HarmonicAxisymmetric): models AsmMAxi.v / AsmMHAxi.v, theorems in
 # Properties_C05_axi.v (+ C06 / C10 / C11 parts in their own files), harness h_fsolver_axi.cpp (props/xaxi.py)
 EXTENSIONS = ["xaxi"]
-EXTRA_PROPERTY_FILES = ["C05_axi", "C05_nl"]
+EXTRA_PROPERTY_FILES = ["C05_axi", "C05_nl", "C05_prev", "C19_nlaxi"]
 LEVEL = "proof"
 COQ_MODULES = ["AsmM", "AsmMH"]
 ASSUMPTIONS = [
